@@ -5,6 +5,7 @@ import Driver.C16
 import Driver.Client
 import Driver.C06
 import Driver.Pool
+import Driver.C18
 /-!
 `lvdriver`: reads one case per line (tab separated, first field = operation), replays it
 through the Lean model M and the specification S, and prints one answer per line:
@@ -35,6 +36,8 @@ def dispatch (line : String) : String :=
     | "client" => ClientOp.clientOp args
     | "tls" => C06.tlsOp args
     | "pool" => PoolOp.poolOp args
+    | "transports" => C18.transportsOp args
+    | "sendmsg" => C18.sendmsgOp args
     | "mailparam" => C04.mailparamOp args
     | "ehlocmd" => C04.ehlocmdOp args
     | "mailstd" => C04.mailstdOp args
